@@ -347,3 +347,16 @@ VERUS_UNITS["C31"] = dict(prop="C31", template="contracts/verus/c31.rs.tmpl", ge
                  "contracts). Not covered: TOCTOU between check and use; callers (websocket.rs) using the returned path; validate_workdir."),
     assumptions=["assume_specification: Path::canonicalize, Path::starts_with, Path::is_absolute, Path::join, Path::display, <PathBuf as Deref>::deref (uninterpreted std::path model)",
                  "PathBuf::from(&str) carries no contract (the proof holds for whatever PathBuf it returns)"])
+
+
+VERUS_UNITS["C12"] = dict(prop="C12", template="contracts/verus/c12.rs.tmpl", gen_name="c12", ledger="obligations/c12.json", level="other",
+    explanation=("PARTIAL: COUNT WINDOW ONLY (tumbling and session windows are NOT decided: they compare chrono instants, which neither verifier can carry here). "
+                 "CountWindow::{new, add_shared, flush_shared, current_count} (window.rs) and ColumnarBuffer::{with_capacity, push, take_all, len} (columnar.rs) are extracted "
+                 "mechanically and verified by Verus: with count >= 1, add_shared appends the arriving event to the buffer and EITHER closes the window, emitting the whole buffer in "
+                 "arrival order with exactly `count` events and leaving the buffer empty, OR emits nothing and keeps the event buffered. By induction over arrivals every event is "
+                 "emitted in exactly one closed window or is still buffered, in arrival order, never twice, and a count window closes with exactly its size. The lazily built column "
+                 "cache and the timestamp column are opaque (cleared / appended only). Not covered: CountWindow::add / flush (clone shells over the shared variants), checkpoint/restore."),
+    assumptions=["R14: `(c).then(|| e)` is `if c { Some(e) } else { None }` (definition of bool::then)",
+                 "core::mem::take on Vec<T> returns the old vector and leaves an empty one (assumed contract vpv_mem_take_vec)",
+                 "chrono timestamp_millis and the FxHashMap column cache are opaque (their values do not influence which events are emitted)",
+                 "count >= 1 (CountWindow::new(0) would emit every event as a window of one: excluded by precondition)"])
